@@ -121,3 +121,61 @@ for _replay in ("absent", "given", "empty"):
                 assumes=["should_rerun is verified per configuration case (presence / emptiness of replay, rerun_status, "
                          "stop_status); the 27 cases are exhaustive"],
             ))
+
+
+# ---------------------------------------------------------------- default_run_decision (C01, C03, C08, C10)
+from pyvc.contract import seam_handler  # noqa: E402
+
+# call-site summary of should_rerun: union of the case contracts above (the 27 cases are exhaustive); it restores
+# started_worker (clause restores_marker) and writes nothing else, hence an empty frame for callers
+SHOULD_RERUN_SUMMARY = Contract(
+    target=f"{NODE}::TestNode.should_rerun",
+    name="TestNode.should_rerun[summary]",
+    params={"self": Ref("TestNode"), "worker": (Ref("TestWorker"), "nullable")},
+    requires=[],
+    raises={"RuntimeError": f"not {EARLY} and {FOREIGN}", "ValueError": None},
+    ensures=[("early_false", f"implies({EARLY}, result == False)")],
+    result_kind=BOOL,
+    frame=[],
+    props=[],
+)
+REGISTRY_SUMMARIES = [SHOULD_RERUN_SUMMARY]
+
+RUN_OVERRIDES = dict(DECISION_OVERRIDES)
+RUN_OVERRIDES["TestNode.should_rerun"] = by_contract(SHOULD_RERUN_SUMMARY)
+RUN_OVERRIDES["TestNode.scan_states"] = seam_handler("scan", BOOL, may_raise=["RuntimeError"])
+
+OWN = "worker.id in self.params['name']"
+SCAN = "(not self.is_finished(worker, 1))"
+
+DEFAULT_RUN = Contract(
+    target=f"{NODE}::TestNode.default_run_decision",
+    params={"self": Ref("TestNode"), "worker": Ref("TestWorker")},
+    requires=WF_NODE + [WF_OBJECTS, WF_RESULTS] + VALID_PARAMS,
+    overrides=RUN_OVERRIDES,
+    extra_names={"filtered_len": FLEN, "bridged_results_len": BRL},
+    raises={
+        "RuntimeError": None,      # foreign worker (exact condition below), or a control file error of the scan
+        "ValueError": None,        # invalid retry settings (from should_rerun)
+    },
+    ensures=[
+        ("early_false", f"implies({EARLY}, result == False and ghost('scan.calls') == old(ghost('scan.calls')))"),
+        ("own_worker_only", f"implies(not {EARLY}, {OWN})"),
+        ("stateless", f"implies(not {EARLY} and {STATELESS}, result == (len(self.shared_results) == 0 or "
+                      f"self.should_rerun(worker)) and ghost('scan.calls') == old(ghost('scan.calls')))"),
+        ("stateful.scan_iff_unfinished", f"implies(not {EARLY} and not ({STATELESS}), ghost('scan.calls') == "
+                                         f"old(ghost('scan.calls')) + (1 if {SCAN} else 0))"),
+        ("stateful.finished_no_scan", f"implies(not {EARLY} and not ({STATELESS}) and not {SCAN} and "
+                                      f"len(self.shared_filtered_results) == 0, result == False)"),
+        ("stateful.present_not_run", f"implies(not {EARLY} and not ({STATELESS}) and {SCAN} and not ghost('scan.result') "
+                                     f"and len(self.shared_filtered_results) == 0, "
+                                     f"result == False and policy_overridden(self, 'should_rerun'))"),
+        ("stateful.missing_runs", f"implies(not {EARLY} and not ({STATELESS}) and {SCAN} and ghost('scan.result'), result)"),
+        ("stateful.rerun_rule", f"implies(not {EARLY} and not ({STATELESS}) and len(self.shared_filtered_results) > 0 "
+                                f"and not ({SCAN} and ghost('scan.result')), "
+                                f"not policy_overridden(self, 'should_rerun') and result == self.should_rerun(worker))"),
+    ],
+    result_kind=BOOL,
+    frame=["TestNode.should_rerun"],
+    props=["C03", "C01", "C08", "C10"],
+)
